@@ -1,7 +1,10 @@
 (* L2: vocabulary of the simulation theorems (definitions only, no proofs): where a piece of code
    sits in a program, the reflexive-transitive closure of the VM's [step], and the fragment of
    the syntax the simulation proof covers. *)
-From MJ Require Import Common.Base Lang.Syntax Lang.Meta Lang.Interp L2.Instr L2.Compile L2.Vm.
+From MJ Require Import Common.Base Lang.Syntax Lang.Meta Lang.Interp.
+From MJ Require Import L2.Instr.
+From MJ Require Import L2.Compile.
+From MJ Require Import L2.Vm.
 Local Open Scope nat_scope.
 
 (* [code] occupies the instruction indices pc .. pc + length code - 1 of the program [C] *)
@@ -28,18 +31,64 @@ Fixpoint l2_expr (e : expr) {struct e} : bool :=
   end.
 
 (* statements covered: raw text, emit, if / elif / else, set, set-block (with filter), with,
-   filter block, autoescape; not covered: for, break, continue, macro, call block *)
-Fixpoint l2_stmt (t : stmt) {struct t} : bool :=
+   filter block, autoescape, for loops WITHOUT filter (any target, else, loop variable), break and
+   continue ([inl]: inside a loop of the fragment, where loop controls are allowed);
+   not covered: for loops with a filter, macro, call block *)
+Fixpoint l2_stmt (inl : bool) (t : stmt) {struct t} : bool :=
   match t with
   | SRaw _ => true
   | SEmit e => l2_expr e
   | SIf arms els =>
-      forallb (fun p => l2_expr (fst p) && forallb l2_stmt (snd p)) arms
-      && match els with Some b => forallb l2_stmt b | None => true end
+      forallb (fun p => l2_expr (fst p) && forallb (l2_stmt inl) (snd p)) arms
+      && match els with Some b => forallb (l2_stmt inl) b | None => true end
   | SSet _ e => l2_expr e
-  | SSetBlock _ body _ => forallb l2_stmt body
-  | SWith binds body => forallb (fun p => l2_expr (snd p)) binds && forallb l2_stmt body
-  | SFilterBlock _ body => forallb l2_stmt body
-  | SAutoEscape v body => l2_expr v && forallb l2_stmt body
-  | SFor _ _ _ _ _ _ | SMacro _ _ _ _ | SCallBlock _ _ _ | SBreak | SContinue => false
+  | SSetBlock _ body _ => forallb (l2_stmt inl) body
+  | SWith binds body => forallb (fun p => l2_expr (snd p)) binds && forallb (l2_stmt inl) body
+  | SFilterBlock _ body => forallb (l2_stmt inl) body
+  | SAutoEscape v body => l2_expr v && forallb (l2_stmt inl) body
+  | SFor _ iter None body els _ =>
+      l2_expr iter && forallb (l2_stmt true) body
+      && match els with Some b => forallb (l2_stmt inl) b | None => true end
+  | SFor _ _ (Some _) _ _ _ => false
+  | SBreak | SContinue => inl
+  | SMacro _ _ _ _ | SCallBlock _ _ _ => false
+  end.
+
+(* the machine after a loop control has undone the scopes [p] (innermost first) and jumped to [pc] *)
+Fixpoint unwound (pc : nat) (p : list cleanup) (stk : list value) (s : st) (esc : bool) (escs : list bool)
+    (caps : list (list (list Z))) (its : list (list value)) (calls : list callframe) : vm :=
+  match p with
+  | [] => mkVm pc stk s esc escs caps its calls
+  | ClFrame :: p' => unwound pc p' stk (pop_frame s) esc escs caps its calls
+  | ClCapture :: p' =>
+      match caps with
+      | o :: cs => unwound pc p' stk (with_out s o) esc escs cs its calls
+      | [] => mkVm pc stk s esc escs caps its calls
+      end
+  | ClAutoEscape :: p' =>
+      match escs with
+      | e :: es => unwound pc p' stk s e es caps its calls
+      | [] => mkVm pc stk s esc escs caps its calls
+      end
+  end.
+
+(* the scopes [p] are really open: enough frames / saved auto-escape flags / capture buffers *)
+Fixpoint fits (p : list cleanup) (nenv nescs ncaps : nat) : Prop :=
+  match p with
+  | [] => True
+  | ClFrame :: p' => 1 <= nenv /\ fits p' (nenv - 1) nescs ncaps
+  | ClCapture :: p' => 1 <= ncaps /\ fits p' nenv nescs (ncaps - 1)
+  | ClAutoEscape :: p' => 1 <= nescs /\ fits p' nenv (nescs - 1) ncaps
+  end.
+
+Definition lc_fits (lc : option lctx) (nenv nescs ncaps : nat) : Prop :=
+  match lc with Some l => fits (lc_pending l) nenv nescs ncaps | None => True end.
+
+(* where the VM is when the interpreter has finished a statement with signal [sg] in state [s'] *)
+Definition post (sg : signal) (lc : option lctx) (endpc : nat) (stk : list value) (s' : st) (esc : bool)
+    (escs : list bool) (caps : list (list (list Z))) (its : list (list value)) (calls : list callframe) (σ' : vm) : Prop :=
+  match sg with
+  | SigNormal => σ' = mkVm endpc stk s' esc escs caps its calls
+  | SigBreak => exists l, lc = Some l /\ σ' = unwound (lc_end l) (lc_pending l) stk s' esc escs caps its calls
+  | SigContinue => exists l, lc = Some l /\ σ' = unwound (lc_iter l) (lc_pending l) stk s' esc escs caps its calls
   end.
